@@ -418,7 +418,7 @@ def run_consumers(case):
     """case: n, rgs, mats{kind: W}, relabs[(name, labels)], model(bool). Evaluates every variant under every relabelling."""
     bct = import_bct()
     if 'large' in case:                      # large case: matrices / labels are in the forked global, the item names one variant
-        case = dict(LARGE[case['large']], only=case['only'], model=False)
+        case = dict(LARGE[case['large']], only=case['only'], model=False, model_lines=case.get('model_lines'))
     n, c = case['n'], case['rgs']
     k = max(c) + 1
     T = 5 if n <= 10 else 30
@@ -447,7 +447,7 @@ def run_consumers(case):
             out['dist']['call:' + bname] = out['dist'].get('call:' + bname, 0) + 1
             if not np.array_equal(la, la0):
                 out['viol'].append((bname, 'labels-modified', dict(wdet(W), n=n, labels=lab, variant=vid), {}))
-            if case['model'] and op is not None and is_int_labels(lab):
+            if (case['model'] or (case.get('model_lines') and name == case['model_lines'])) and op is not None and is_int_labels(lab):
                 out['lean'].append(('%s n=%d W=%s c=%s %s' % (op, n, rmat_str(W), ints_str(lab), extra), bname, vid, name, lab, res[name], kind))
         base = res['identity']; gw_cache = {}
         if base[0] == 'timeout':
@@ -645,6 +645,24 @@ def run_agreement(case):
         if n <= 10:
             out['lean'].append(('agreement n=%d cs=%s' % (n, ';'.join(ints_str(c) for c in cols)), 'agreement', 'agreement', name, cols,
                                 ('val', res.get(name)), exp))
+    # agreement_weighted(ci [partitions x nodes], wts): D = sum_p wts[p]/sum(wts) * [same module]; diagonal not cleared
+    wts = [Fr(1 + (3 * q) % 5) for q in range(len(case['cols']))]; tot = sum(wts)
+    expw = [[sum(w / tot for col, w in zip(case['cols'], wts) if col[i] == col[j]) for j in range(n)] for i in range(n)]
+    resw = {}
+    for name, cols in (('identity', case['cols']), ('relabelled', case['cols2'])):
+        st, D = call(bct.agreement_weighted, np.array(cols, dtype=np.int64), np.array([float(w) for w in wts]), t=5, retry=10)
+        out['evals'] += 1; tally(out, 'agreement_weighted', st)
+        if st == 'exc':
+            out['viol'].append(('agreement_weighted', 'raises', {'n': n, 'ci_rows': cols, 'wts': [str(w) for w in wts], 'exception': D}, {'exception': exc_name(D)}))
+        elif st == 'ok':
+            resw[name] = np.asarray(D, dtype=float)
+            if not np.allclose(resw[name], np.array([[float(x) for x in r] for r in expw]), rtol=0, atol=1e-12):
+                out['viol'].append(('agreement_weighted', 'definition', {'n': n, 'ci_rows': cols, 'result': resw[name].tolist()}, {}))
+        if n <= 10:
+            out['lean'].append(('agreement_w n=%d cs=%s wts=%s' % (n, ';'.join(ints_str(c) for c in cols), ','.join(rat_str(w) for w in wts)),
+                                'agreement_weighted', 'agreement_w', name, cols, ('val', None), expw))
+    if len(resw) == 2 and not np.allclose(resw['identity'], resw['relabelled'], rtol=0, atol=1e-12):
+        out['viol'].append(('agreement_weighted', 'label-invariance', {'n': n, 'ci_rows': case['cols'], 'relabelled': case['cols2']}, {}))
     if res.get('identity') is not None and res.get('relabelled') is not None and res['identity'] != res['relabelled']:
         out['viol'].append(('agreement', 'label-invariance', {'n': n, 'ci_columns': case['cols'], 'relabelled': case['cols2']}, {}))
     out['keys'].append(digest(['agr', case['cols']]))
@@ -861,6 +879,12 @@ def compare_model(ck, items, outs):
                 got = [int(t) for t in d['ci'].split(',')] if 'ci' in d else d
                 if got != pyv[1]:
                     bad = 'model %s bct %s' % (got, pyv[1])
+            elif bname == 'agreement_weighted':
+                n = len(lab[0]); got = [Fr(t) for t in kv(o)['D'].split(',')]
+                got = [got[i * n:(i + 1) * n] for i in range(n)]
+                if got != aux:
+                    bad = 'model %s definition %s' % (got, aux)
+                ck.count('agreement_weighted_model_vs_definition')
             elif bname == 'agreement':
                 n = len(lab[0]); got = [int(t) for t in kv(o)['D'].split(',')]
                 got = [got[i * n:(i + 1) * n] for i in range(n)]
@@ -903,9 +927,11 @@ aux_W = [parse_W_from_line]
 VKW = {v[0]: v[3] for v in variants()}
 
 PROBE_NOTE = 'object-reuse probes (common.reuse_probe) and f-g-f sequences on shared argument objects'
+MODEL_AT_32 = {'participation_coef/wu/undirected': 'identity', 'participation_coef_sign/su': 'shuffled', 'module_degree_zscore/wu/0': 'reversal',
+               'diversity_coef_sign/su': 'identity', 'modularity_und_sign/su/sta': 'shuffled', 'modularity_und/wu/1': 'sparse'}
 ZERO_NODE = []
 ROUTINES = ['participation_coef', 'participation_coef_sign', 'module_degree_zscore', 'diversity_coef_sign', 'gateway_coef_sign',
-            'modularity_und', 'modularity_dir', 'modularity_und_sign', 'partition_distance', 'ci2ls', 'ls2ci', 'agreement']
+            'modularity_und', 'modularity_dir', 'modularity_und_sign', 'partition_distance', 'ci2ls', 'ls2ci', 'agreement', 'agreement_weighted']
 
 MALFORMED = ['pcoef n=3 W=1,2 c=1,2,3 deg=undirected', 'pcoef n=2 W=0,1,1,0 c=1,2 deg=sideways', 'frobnicate n=2 c=1,2',
              'relabel n=3 c=1,2', 'q_und n=2 W=0,1,1,0 c=1,2 gamma=1/0', 'zscore n=2 W=0,1,1,0 c=1,2 flag=7',
@@ -1007,7 +1033,10 @@ def main():
             for v in variants():
                 if v[1] == 'gateway_coef_sign' and (n > 150 or 'betweenness' in v[0]):
                     continue                  # gateway's Python double loop over nodes x modules: kept to the n <= 140 shapes
-                cons.append({'large': li, 'only': v[0]})
+                ml = None
+                if k == 32 and v[0] in MODEL_AT_32:
+                    ml = MODEL_AT_32[v[0]]          # a few lines of the 32-community shape also go to the Lean driver (~4 s each)
+                cons.append({'large': li, 'only': v[0], 'model_lines': ml})
             rel = LARGE[li]['relabs']
             lists.append({'n': n, 'rgs': c, 'relabs': rel, 'seed': int(rs.randint(2 ** 31))})
             c2 = large_partition(rs, n, int(rs.randint(max(2, k // 2), k + 1)))
@@ -1073,7 +1102,7 @@ def main():
     # IndexError must stay the minority outcome).  `agreement` is exempt from "returns normally" only while D18 is listed.
     d18_open = any(k.get('id') == 'C14-D18-agreement-typeerror' for k in ck.known.get('open', []))
     if d18_open:
-        ck.never_ok_exempt = {'agreement'}      # common.Check's own never-returns-normally rule: exempt only while D18 is listed
+        ck.never_ok_exempt = {'agreement', 'agreement_weighted'}      # common.Check's own never-returns-normally rule: exempt only while D18 is listed
     for fn in ROUTINES:
         okc, exc, to = (ck.dist.get('outcome:%s:%s' % (fn, o), 0) for o in ('ok', 'exc', 'timeout'))
         tot = okc + exc + to
@@ -1081,7 +1110,7 @@ def main():
             if not ck.replay:
                 ck.breaks.append({'kind': 'liveness', 'function': fn, 'what': 'routine was never called by this run'})
             continue
-        if okc == 0 and not (fn == 'agreement' and d18_open):
+        if okc == 0 and not (fn in ('agreement', 'agreement_weighted') and d18_open):
             ck.breaks.append({'kind': 'liveness', 'function': fn, 'what': 'no call returned normally', 'ok': okc, 'exceptions': exc, 'timeouts': to})
         if to > max(2, tot // 100):
             ck.breaks.append({'kind': 'liveness', 'function': fn, 'what': 'too many watchdog timeouts', 'ok': okc, 'exceptions': exc, 'timeouts': to})
@@ -1126,11 +1155,18 @@ def main():
             # the interpreted driver is single-threaded: run it on 6 slices in parallel (order preserved)
             from concurrent.futures import ThreadPoolExecutor
             allin = lines + MALFORMED + [z[0] for z in ZERO_NODE]
-            nch = 6 if len(allin) > 600 else 1
-            sz = (len(allin) + nch - 1) // nch
-            with ThreadPoolExecutor(nch) as ex:
-                parts = list(ex.map(lambda ch: run_driver('Partition', ch, timeout=1500), [allin[i:i + sz] for i in range(0, len(allin), sz)]))
-            outs = [o for pt in parts for o in pt]
+            heavy = [i for i, ln in enumerate(allin) if len(ln) > 3000]        # the 32-community lines: one driver process each
+            light = [i for i in range(len(allin)) if len(allin[i]) <= 3000]
+            nch = 6 if len(light) > 600 else 1
+            sz = (len(light) + nch - 1) // nch
+            groups = [light[i:i + sz] for i in range(0, len(light), sz)] + [[i] for i in heavy]
+            with ThreadPoolExecutor(max(1, len(groups))) as ex:
+                parts = list(ex.map(lambda g: run_driver('Partition', [allin[i] for i in g], timeout=1500), groups))
+            outs = [None] * len(allin)
+            for g, pt in zip(groups, parts):
+                for i, o in zip(g, pt):
+                    outs[i] = o
+            ck.count('model_lines_at_32_communities', len(heavy))
             nv, nd = compare_model(ck, items, outs[:len(lines)])
             for (ln, op, exp), o in zip(ZERO_NODE, outs[len(lines) + len(MALFORMED):]):
                 if o != exp:
